@@ -251,7 +251,7 @@ def run(ctx, replay):
         behs[0]["id"] = 1
         behs[0]["level"] = obj.get("level", behs[0].get("level", "api"))
     else:
-        n_real, n_small, n_fit, n_fill, n_rem, n_endp = (2500, 700, 700, 200, 600, 600) if thorough else \
+        n_real, n_small, n_fit, n_fill, n_rem, n_endp = (1800, 500, 500, 150, 500, 500) if thorough else \
             (200, 50, 50, 30, 50, 50)
         gens = {
             # the real table capacity, three callers, all four scopes
@@ -329,7 +329,7 @@ def run(ctx, replay):
             b["probe"] = thorough or ctx.rng.random() < 0.6
     allbehs = behs
     behs = [b for b in allbehs if b.get("level", "api") == "api"]
-    ctx.log("%d behaviours to replay (%d at the remote level)" % (len(allbehs), len(allbehs) - len(behs)))
+    ctx.log("%d behaviours to replay (%d at the remote/endpoint level)" % (len(allbehs), len(allbehs) - len(behs)))
 
     # ---- replay on the real limits.Group -----------------------------------------
     binary = ctx.build_harness("limitscheck")
@@ -381,6 +381,8 @@ def run(ctx, replay):
         by_t.update(lby_t)
         ctx.cov[level + "_level_traces"] = len(lverd)
     ok, drift, kf_traces, preds = stats["ok"], stats["drift"], stats["kf"], stats["preds"]
+    ctx.log("traces: %d accepted, %d drift, known-finding traces %s, violated predicates %s" % (
+        ok, drift, kf_traces, preds))
 
     # ---- collect the exhaustive runs -------------------------------------------------
     if not replay:
@@ -417,8 +419,8 @@ def run(ctx, replay):
     ctx.cov["traces_validated_against_impl"] = ok
     ctx.cov["drift_traces"] = drift
     ctx.cov["known_finding_traces"] = kf_traces
-    ctx.cov["evaluations"] = len(behs)
-    ctx.cov["distinct_nontrivial"] = sum(1 for b in behs if interesting(b))
+    ctx.cov["evaluations"] = len(allbehs)
+    ctx.cov["distinct_nontrivial"] = sum(1 for b in allbehs if interesting(b))
     ctx.cov["events"] = len(events)
     ctx.cov["rule"] = ("histories = complete behaviours of Limits.tla (Eager, Gen) printed by TLC -simulate at every "
                        "quiescent point, de-duplicated, sampled by VERIF_SEED; non-trivial = two callers use the "
